@@ -103,9 +103,25 @@ impl TryFrom<apollo_parser::cst::Selection> for Selection {
     }
 }
 
+/// Nesting bound for generated selection sets, see [`DocumentBuilder::selection_set`].
+const MAX_SELECTION_SET_DEPTH: usize = 32;
+
 impl DocumentBuilder<'_> {
     /// Create an arbitrary `SelectionSet`
     pub fn selection_set(&mut self) -> ArbitraryResult<SelectionSet> {
+        // Inline fragments nest selection sets without selecting into another type, so the input
+        // alone decides how deep they go (a long run of equal bytes nests thousands of them).
+        // Bound the nesting and report the input as exhausted beyond it.
+        if self.selection_set_depth >= MAX_SELECTION_SET_DEPTH {
+            return Err(arbitrary::Error::NotEnoughData);
+        }
+        self.selection_set_depth += 1;
+        let result = self.selection_set_unbounded();
+        self.selection_set_depth -= 1;
+        result
+    }
+
+    fn selection_set_unbounded(&mut self) -> ArbitraryResult<SelectionSet> {
         let mut exclude_names = Vec::new();
         let selection_nb = self.stack.last().map(|o| o.fields_def().len()).unwrap_or(0);
 
